@@ -285,12 +285,13 @@ lemma("column_update_keeps_sum",
       concl="Sum(a, range(0, N), F2[a]) == Sum(a, range(0, N), F[a])",
       proof="""
 have hmem : b ∈ Finset.Ico (0:ℤ) N := Finset.mem_Ico.mpr ⟨hb.1, hb.2⟩
-have e : ∀ a ∈ Finset.Ico (0:ℤ) N, F2 a = F a + ((G a : ℝ) : ℂ) - (((if a = b then (∑ x ∈ Finset.Ico (0:ℤ) N, G x) else (0:ℝ)) : ℝ) : ℂ) := by
+have e : ∀ a ∈ Finset.Ico (0:ℤ) N, F2 a = F a + ((G a : ℝ) : ℂ) - (if a = b then (((∑ x ∈ Finset.Ico (0:ℤ) N, G x) : ℝ) : ℂ) else 0) := by
   intro a ha
   exact hF a (Finset.mem_Ico.mp ha).1 (Finset.mem_Ico.mp ha).2
-rw [Finset.sum_congr rfl e, Finset.sum_sub_distrib, Finset.sum_add_distrib, ← Complex.ofReal_sum, ← Complex.ofReal_sum,
-    Finset.sum_ite_eq' (Finset.Ico (0:ℤ) N) b]
-simp [hmem]
+rw [Finset.sum_congr rfl e, Finset.sum_sub_distrib, Finset.sum_add_distrib, Finset.sum_ite_eq' (Finset.Ico (0:ℤ) N) b]
+simp only [hmem, if_true]
+push_cast
+ring
 """)
 
 
@@ -494,4 +495,73 @@ have t4 : ∑ c ∈ Finset.Ico (0:ℤ) N, ∑ d ∈ Finset.Ico (0:ℤ) N, (if a 
   apply Finset.sum_congr rfl; intro d _; ring
 simp only [f, sub_mul, add_mul, Finset.sum_sub_distrib, Finset.sum_add_distrib]
 rw [t1, t2, t3, t4]
+""")
+
+
+# ---- basis change and back: Z (Z^-1 X Z) Z^-1 = X -------------------------------------------------------------------------
+_N2 = "(range(0, N), range(0, N))"
+lemma("similarity_roundtrip",
+      types={"N": "int", "Z": "carr2", "Zi": "carr2", "X": "carr2", "Y": "carr2", "W": "carr2"},
+      hyps=[("hZZi", "forall((i, j), %s, Sum(k, range(0, N), Z[i,k]*Zi[k,j]) == ite(i == j, 1, 0))" % _N2),
+            ("hY", "forall((i, j), %s, Y[i,j] == Sum(k, range(0, N), Zi[i,k]*Sum(l, range(0, N), X[k,l]*Z[l,j])))" % _N2),
+            ("hW", "forall((i, j), %s, W[i,j] == Sum(k, range(0, N), Z[i,k]*Sum(l, range(0, N), Y[k,l]*Zi[l,j])))" % _N2)],
+      concl="forall((i, j), %s, W[i,j] == X[i,j])" % _N2,
+      proof=r"""
+intro i j hi0 hiN hj0 hjN
+have hi : i ∈ Finset.Ico (0:ℤ) N := Finset.mem_Ico.mpr ⟨hi0, hiN⟩
+have hj : j ∈ Finset.Ico (0:ℤ) N := Finset.mem_Ico.mpr ⟨hj0, hjN⟩
+rw [hW i j hi0 hiN hj0 hjN]
+-- substitute Y and distribute everything into a four-fold sum
+have e1 : ∑ k ∈ Finset.Ico (0:ℤ) N, Z i k * ∑ l ∈ Finset.Ico (0:ℤ) N, Y k l * Zi l j
+    = ∑ k ∈ Finset.Ico (0:ℤ) N, ∑ l ∈ Finset.Ico (0:ℤ) N, ∑ p ∈ Finset.Ico (0:ℤ) N, ∑ q ∈ Finset.Ico (0:ℤ) N,
+        Z i k * Zi k p * X p q * (Z q l * Zi l j) := by
+  apply Finset.sum_congr rfl; intro k hk
+  have hk' := Finset.mem_Ico.mp hk
+  rw [Finset.mul_sum]
+  apply Finset.sum_congr rfl; intro l hl
+  have hl' := Finset.mem_Ico.mp hl
+  rw [hY k l hk'.1 hk'.2 hl'.1 hl'.2, Finset.sum_mul, Finset.mul_sum]
+  apply Finset.sum_congr rfl; intro p _
+  rw [Finset.mul_sum, Finset.sum_mul, Finset.mul_sum]
+  apply Finset.sum_congr rfl; intro q _
+  ring
+rw [e1]
+-- reorder: k l p q  ->  p q k l
+have e2 : ∑ k ∈ Finset.Ico (0:ℤ) N, ∑ l ∈ Finset.Ico (0:ℤ) N, ∑ p ∈ Finset.Ico (0:ℤ) N, ∑ q ∈ Finset.Ico (0:ℤ) N,
+        Z i k * Zi k p * X p q * (Z q l * Zi l j)
+    = ∑ p ∈ Finset.Ico (0:ℤ) N, ∑ q ∈ Finset.Ico (0:ℤ) N,
+        (∑ k ∈ Finset.Ico (0:ℤ) N, Z i k * Zi k p) * X p q * (∑ l ∈ Finset.Ico (0:ℤ) N, Z q l * Zi l j) := by
+  calc ∑ k ∈ Finset.Ico (0:ℤ) N, ∑ l ∈ Finset.Ico (0:ℤ) N, ∑ p ∈ Finset.Ico (0:ℤ) N, ∑ q ∈ Finset.Ico (0:ℤ) N,
+          Z i k * Zi k p * X p q * (Z q l * Zi l j)
+      = ∑ k ∈ Finset.Ico (0:ℤ) N, ∑ p ∈ Finset.Ico (0:ℤ) N, ∑ l ∈ Finset.Ico (0:ℤ) N, ∑ q ∈ Finset.Ico (0:ℤ) N,
+          Z i k * Zi k p * X p q * (Z q l * Zi l j) := by
+        apply Finset.sum_congr rfl; intro k _; exact Finset.sum_comm
+    _ = ∑ p ∈ Finset.Ico (0:ℤ) N, ∑ k ∈ Finset.Ico (0:ℤ) N, ∑ l ∈ Finset.Ico (0:ℤ) N, ∑ q ∈ Finset.Ico (0:ℤ) N,
+          Z i k * Zi k p * X p q * (Z q l * Zi l j) := Finset.sum_comm
+    _ = ∑ p ∈ Finset.Ico (0:ℤ) N, ∑ k ∈ Finset.Ico (0:ℤ) N, ∑ q ∈ Finset.Ico (0:ℤ) N, ∑ l ∈ Finset.Ico (0:ℤ) N,
+          Z i k * Zi k p * X p q * (Z q l * Zi l j) := by
+        apply Finset.sum_congr rfl; intro p _
+        apply Finset.sum_congr rfl; intro k _; exact Finset.sum_comm
+    _ = ∑ p ∈ Finset.Ico (0:ℤ) N, ∑ q ∈ Finset.Ico (0:ℤ) N, ∑ k ∈ Finset.Ico (0:ℤ) N, ∑ l ∈ Finset.Ico (0:ℤ) N,
+          Z i k * Zi k p * X p q * (Z q l * Zi l j) := by
+        apply Finset.sum_congr rfl; intro p _; exact Finset.sum_comm
+    _ = _ := by
+        apply Finset.sum_congr rfl; intro p _
+        apply Finset.sum_congr rfl; intro q _
+        rw [Finset.sum_mul, Finset.sum_mul]
+        apply Finset.sum_congr rfl; intro k _
+        rw [Finset.mul_sum]
+rw [e2]
+have e3 : ∑ p ∈ Finset.Ico (0:ℤ) N, ∑ q ∈ Finset.Ico (0:ℤ) N,
+        (∑ k ∈ Finset.Ico (0:ℤ) N, Z i k * Zi k p) * X p q * (∑ l ∈ Finset.Ico (0:ℤ) N, Z q l * Zi l j)
+    = ∑ p ∈ Finset.Ico (0:ℤ) N, ∑ q ∈ Finset.Ico (0:ℤ) N,
+        (if i = p then (1:ℂ) else 0) * X p q * (if q = j then (1:ℂ) else 0) := by
+  apply Finset.sum_congr rfl; intro p hp
+  have hp' := Finset.mem_Ico.mp hp
+  apply Finset.sum_congr rfl; intro q hq
+  have hq' := Finset.mem_Ico.mp hq
+  rw [hZZi i p hi0 hiN hp'.1 hp'.2, hZZi q j hq'.1 hq'.2 hj0 hjN]
+rw [e3]
+simp only [ite_mul, one_mul, zero_mul, mul_ite, mul_one, mul_zero]
+simp only [Finset.sum_ite_eq', Finset.sum_ite_eq, hi, hj, if_true]
 """)
